@@ -13,7 +13,8 @@
 (*       data   |-> << >> (nothing computed before) or <<map>>: previously computed values,     *)
 (*       expiry |-> << >> (no expiries), <<map>>: key -> None or a datetime, or                 *)
 (*                  <<"scalar", e>>: one None / datetime for every row ("scalars broadcast"),   *)
-(*       today  |-> ordinal of the day on which the call is made]                               *)
+(*       today  |-> ordinal of the day on which the call is made,                               *)
+(*       spell  |-> how every table SPELLS its keys, see "Spelling of keys" below]               *)
 (* The function handed to perdictable is F: it returns the tuple ("f", arguments...), so the    *)
 (* value of a row tells which arguments it was computed from; the driver's F also records every *)
 (* call (the library is not instrumented).                                                      *)
@@ -81,6 +82,38 @@ RunRows(c, nk)   == RunRowsIn(c, SortedKeys(JoinKeys(c), nk))
 CallsIn(ks, c) == LET todo == SelectSeq(ks, LAMBDA k : ~CachedPast(c, k)) IN [n \in 1..Len(todo) |-> Args(c, todo[n])]
 RunCalls(c, nk) == CallsIn(SortedKeys(JoinKeys(c), nk), c)
 
+\* ---------------------------------------------------------------------------------------------
+\* Spelling of keys.  The statement speaks of KEYS ("one row per key present in every table input",
+\* "keys it lacks"), not of the Python objects that sit in the key columns.  A key is what a key cell
+\* DENOTES; two cells denote the same key exactly when the library's own order of keys ranks them
+\* equal: 1, 1.0, numpy.int64(1), numpy.float32(1) are one key, any two NaN objects are one key
+\* (the greatest number), None is one key (the least), a date, the datetime of its midnight and the
+\* numpy.datetime64 of that day are one key.  Every table of a call - input t = 1..NIn, the previously
+\* computed values (t = NIn + 1) and the expiries (t = NIn + 2) - holds for each of its keys one
+\* concrete object, its SPELLING of the key:
+\*      c.spell[t][k] = s : table t holds the object number s for key k
+\*                          (equal numbers for one key = the very same Python object, different numbers =
+\*                           different objects, possibly of different types, that denote k)
+\* The law level is written on denotations: no operator above or below reads c.spell, i.e. which
+\* rows exist, their order, their values and the calls of f do not depend on how a key is spelt
+\* in the inputs, in an outer-joined (defaulted) input or in the cache.  (MC_Perdictable states this once
+\* more as the invariant SpellingIsNotKey and enumerates the spellings; the driver renders them.)
+\* Named deviation AnySpelling: WHICH of the supplied spellings of its key a returned row carries is not
+\* pinned by the statement; results are read back as denotations.
+\* ---------------------------------------------------------------------------------------------
+NTab(c)         == NIn(c) + 2
+TableKeys(c, t) == IF t <= NIn(c) THEN (IF c.ins[t].kind = "keyed" THEN DOMAIN c.ins[t].map ELSE {})
+                   ELSE IF t = NIn(c) + 1 THEN (IF c.data = <<>> THEN {} ELSE DOMAIN c.data[1])
+                   ELSE (IF ExpiryKind(c) = "keyed" THEN DOMAIN c.expiry[1] ELSE {})
+\* every table spells each of its keys exactly once ("a table keyed by keys": at most one row per key)
+WellSpelled(c)  == /\ Len(c.spell) = NTab(c)
+                   /\ \A t \in 1..NTab(c) : /\ DOMAIN c.spell[t] = TableKeys(c, t)
+                                            /\ \A k \in DOMAIN c.spell[t] : c.spell[t][k] \in Nat
+\* the same call with every key spelt by one and the same object everywhere
+Plain(c)        == [c EXCEPT !.spell = [t \in 1..NTab(c) |-> [k \in TableKeys(c, t) |-> 0]]]
+\* the tables in which key k is spelt differently from table t (the objects an identity lookup would miss)
+OtherSpellings(c, t, k) == {u \in 1..NTab(c) : k \in TableKeys(c, u) /\ k \in TableKeys(c, t) /\ c.spell[u][k] # c.spell[t][k]}
+
 \* bags written as sequences
 Count(s, x)   == Cardinality({n \in 1..Len(s) : s[n] = x})
 SameBag(s, t) == Len(s) = Len(t) /\ \A x \in Range(s) \cup Range(t) : Count(s, x) = Count(t, x)
@@ -99,6 +132,7 @@ ExpiryOnCachedOnly(c) ==
 CacheInsideJoin(c)    == (Strict(c) = {} /\ c.data # <<>>) => DOMAIN c.data[1] \subseteq JoinKeys(c)
 InDomain(c) == /\ ExpiryOnCachedOnly(c)
                /\ CacheInsideJoin(c)
+               /\ WellSpelled(c)
                /\ AllScalar(c) => (c.data = <<>> /\ c.expiry = <<>>)
 
 \* ---------------------------------------------------------------------------------------------
